@@ -4,6 +4,7 @@
 #include <stddef.h>
 extern size_t g_n0;                   /* n at entry                                              */
 extern size_t g_sz1, g_sz2;           /* sizes of the exact-fit objects b1 / b2 point to         */
+extern size_t g_dmax0;               /* dmax at entry (memcmp_s)                                 */
 extern size_t gk;                     /* arbitrary index                                         */
 extern unsigned long g_cn, g_ct;      /* branch events ("not-taken" / "taken") inserted mechanically
                                          by goto-instrument --branch verif_branch                */
